@@ -685,6 +685,85 @@ pub fn run(rep: &'static Report) {
         }
     }
 
+    // the same under passwords of particular shapes (empty, one blank, one letter, exactly / just over one HMAC block, long):
+    // two generations into one ring, a change of the first key's password to the very same password, and two password
+    // encryptions of one plaintext -- every salt and every private key is new, within one password and across all of them
+    {
+        let x64 = "x".repeat(64);
+        let x65 = "x".repeat(65);
+        let y300 = "y".repeat(300);
+        let shapes: Vec<&str> = vec!["", " ", "a", &x64, &x65, &y300];
+        let per: Vec<Result<Vec<(String, Vec<u8>)>, String>> = shapes
+            .par_iter()
+            .map(|pw| {
+                let attempt = || -> Result<Vec<(String, Vec<u8>)>, String> {
+                    let sc = Scratch::new();
+                    let tag = format!("password of {} byte(s)", pw.len());
+                    let mut vals = vec![];
+                    for name in ["a", "b"] {
+                        let out = proc::run(&Cmd::new(&["key", "generate", "-o", "ring.txt", "--env-pass"]).env("KESTREL_PASSWORD", pw).stdin(format!("{}\n", name).as_bytes()), &sc.0);
+                        if !out.ok() {
+                            return Err(format!("key generate with a {} failed: {}", tag, out.summary()));
+                        }
+                    }
+                    let txt = String::from_utf8_lossy(&sc.read("ring.txt").unwrap_or_default()).to_string();
+                    let locked: Vec<String> = txt.lines().filter_map(|l| l.strip_prefix("PrivateKey = ")).map(|x| x.trim().to_string()).collect();
+                    if locked.len() != 2 {
+                        return Err(format!("expected 2 PrivateKey lines, found {}", locked.len()));
+                    }
+                    for (i, l) in locked.iter().enumerate() {
+                        let blob = r::b64_decode(l).filter(|b| b.len() == 84).ok_or("PrivateKey is not an 84-byte base64 string")?;
+                        vals.push((format!("{}: salt of generated key {}", tag, i + 1), blob[4..36].to_vec()));
+                        let sk = r::unlock_key(&blob, pw.as_bytes()).ok_or(format!("{}: generated key {} does not unlock under it (REF)", tag, i + 1))?;
+                        vals.push((format!("{}: private key {}", tag, i + 1), sk.to_vec()));
+                    }
+                    let out = proc::run(&Cmd::new(&["key", "change-pass", &locked[0], "--env-pass"]).env("KESTREL_PASSWORD", pw).env("KESTREL_NEW_PASSWORD", pw), &sc.0);
+                    if !out.ok() {
+                        return Err(format!("key change-pass with a {} failed: {}", tag, out.summary()));
+                    }
+                    let t2 = String::from_utf8_lossy(&out.stdout).to_string();
+                    let l2 = t2.lines().find_map(|l| l.trim().strip_prefix("PrivateKey = ")).ok_or("no PrivateKey line from change-pass")?.trim().to_string();
+                    let b2 = r::b64_decode(&l2).filter(|b| b.len() == 84).ok_or("change-pass output is not an 84-byte base64 string")?;
+                    vals.push((format!("{}: salt after change-pass", tag), b2[4..36].to_vec()));
+                    sc.write("plain.bin", b"the same plaintext");
+                    for i in 0..2 {
+                        let out = proc::run(&Cmd::new(&["password", "encrypt", "plain.bin", "-o", "out.ktl", "--env-pass"]).env("KESTREL_PASSWORD", pw), &sc.0);
+                        let f = sc.read("out.ktl").unwrap_or_default();
+                        if !out.ok() || f.len() < 36 {
+                            return Err(format!("password encrypt with a {} failed: {}", tag, out.summary()));
+                        }
+                        vals.push((format!("{}: salt of password file {}", tag, i + 1), f[4..36].to_vec()));
+                        let _ = std::fs::remove_file(sc.0.join("out.ktl"));
+                    }
+                    Ok(vals)
+                };
+                attempt().or_else(|_| attempt())
+            })
+            .collect();
+        rep.eval(shapes.len() as u64 * 5);
+        rep.nontrivial(b"password-shapes-fresh");
+        let mut all: Vec<(String, Vec<u8>)> = vec![];
+        for r0 in per {
+            match r0 {
+                Ok(v) => all.extend(v),
+                Err(e) => rep.violation("shapes/operation-failed", json!({"kind":"append"}), e),
+            }
+        }
+        'outer: for i in 0..all.len() {
+            if all[i].1.iter().all(|&b| b == 0) {
+                rep.violation("shapes/salt-or-key-reused", json!({"kind":"append"}), format!("[{}] is all zero", all[i].0));
+                break;
+            }
+            for j in 0..i {
+                if all[i].1 == all[j].1 {
+                    rep.violation("shapes/salt-or-key-reused", json!({"kind":"append"}), format!("two operations share a value: [{}] == [{}] = {}", all[j].0, all[i].0, hx(&all[i].1)));
+                    break 'outer;
+                }
+            }
+        }
+        rep.extra("password_shape_fresh_values", json!(all.len()));
+    }
+
     seam_check(rep, &ctx.fx);
     rng_fault_sweep(rep, &ctx.fx);
     nonblocking_stdin(rep, &ctx.fx);
